@@ -14,7 +14,7 @@ import failgen
 import lib
 import l2
 
-PAR = 6
+PAR = 4
 SHOOT_TIMEOUT = 25
 
 DIAG_PATTERNS = [
@@ -620,9 +620,12 @@ def body(run, proof_ok):
     cases = [c for _, c in suite]
     family = result_list_cases(run.rng, None if run.thorough() else 44)
     cases += family
+    classes = odd_field_cases() + raw_cases() + flag_sweep(run.rng, run.thorough())
+    cases += classes
     cases += [failgen.gen_case(run.rng) for _ in range(n_typed)]
     cases += [gen_opaque(run.rng, k) for k in range(n_opaque)]
-    run.log("cases: %d suite, %d result lists, %d typed, %d opaque" % (len(suite), len(family), n_typed, n_opaque))
+    run.log("cases: %d suite, %d result lists, %d odd-field/raw/flag-sweep, %d typed, %d opaque"
+            % (len(suite), len(family), len(classes), n_typed, n_opaque))
     obs, layouts = [], []
     chunk = 600
     mism = []
@@ -718,13 +721,17 @@ def body(run, proof_ok):
         "findings_measured": outcome,
         "result_list_family": {"cases": len(family), "of": len(result_list_family()),
                                "what": "rest result lists of 1..4 values over three types, unnamed / named / grouped"},
+        "deterministic_classes": {"odd_field_names": len(odd_field_cases()), "raw_with_several_outputs": len(raw_cases()),
+                                  "flag_value_sweep": len(classes) - len(odd_field_cases()) - len(raw_cases()),
+                                  "flag_value_sweep_full": sum(len(HOSTILE) for fl in sum(STRING_FLAGS.values(), [])),
+                                  "hostile_values": HOSTILE},
         "coverage_suite": {"cases": len(suite),
                            "aimed_class_not_observed": [d for (d, _), o in zip(suite, obs) if o["diag"] != d
                                                         and not (d, o["diag"]) in (("DUsageUnknownSub", "DUsageNoArgs"),
                                                                                    ("DUsageNoTypeNoFile", "DUsageNoSubArgs"))]},
         "samples": [{"args": cases[i].args, "damage": cases[i].labels or cases[i].opaque, "cwd_is_pkg": cases[i].cwd_is_pkg,
                      "files": sorted(layouts[i]), "observed": {k: obs[i][k] for k in ("rc", "diag", "changed", "files")}}
-                    for i in (len(suite) + len(family) + 3, len(typed) // 2, len(cases) - 2)],
+                    for i in (len(suite) + len(family) + len(classes) + 3, len(typed) // 2, len(cases) - 2)],
         "trusted_base": lib.TRUSTED_BASE_COMMON + [
             "the package is modelled by a small abstract syntax (type specs, struct fields, interface methods, function "
             "declarations, const specs, // comment lines); go/types facts are recomputed from it (underlying integer/struct type "
@@ -869,6 +876,143 @@ def result_list_cases(rng, n=None):
         c.labels = ["result_list_family"]
         cases.append(c)
     return cases
+
+
+# ------------------------------------------------- blank / odd field names, directly and promoted
+
+def odd_field_cases():
+    """fields named `_`, `__`, `_x`, `X_`, `x_y`, non-ASCII, declared directly and promoted from an embedded struct of the
+    package and of the standard library (sync/atomic.Int64: `_ noCopy; _ align64; v int64`).  The analyses skip `_`
+    fields only at the top level, so the promoted ones reach the name transformations.  Whether the generated text formats
+    is the oracle's business (uncertain); exit status, absence of panics and of changes are judged as always."""
+    T = F.tid
+    inner = _struct("Inner", [F.Field(["_"], ("arrn", ("func",))), F.Field(["x"], T("int"))])
+    user = _struct("User", [F.Field([], T("Inner")), F.Field(["name"], T("string"))])
+    puser = _struct("PUser", [F.Field([], F.tstar(T("Inner"))), F.Field(["name"], T("string"))])
+    cnt = _struct("Cnt", [F.Field([], F.tsel("atomic", "Int64")), F.Field(["id"], T("int"))])
+    odd = _struct("Odd", [F.Field(["_"], T("int")), F.Field(["__"], T("int")), F.Field(["_x"], T("int")), F.Field(["X_"], T("int")),
+                          F.Field(["x_y"], T("int")), F.Field(["\u00fcn\u00ef"], T("string")), F.Field(["\u00dcn\u00ef"], T("string")),
+                          F.Field(["a1b2", "_"], T("int"))])
+    holds = _struct("HoldsOdd", [F.Field([], T("Odd")), F.Field(["z"], T("int"))])
+    atomic = [F.TSpec("Int64", ("struct", [F.Field(["_"], T("noCopy")), F.Field(["_"], T("align64")), F.Field(["v"], T("int64"))]))]
+    out = []
+
+    def mk(sub, args, decls, dest=None, unc=()):
+        c = _case(sub, args, [_file("a.go", decls)], dest)
+        if any(d is cnt for d in decls):
+            c.foreign["atomic"] = atomic
+            c.foreign_path["atomic"] = "sync/atomic"
+        c.uncertain = list(unc)
+        c.labels = ["odd_fields"]
+        out.append(c)
+    for flags in ([], ["-json"], ["-getset", "-opt"], ["-json", "-tagcase=pascal", "-exp"]):
+        for t, decls in (("User", [inner, user]), ("PUser", [inner, puser]), ("Cnt", [cnt]), ("Odd", [odd]), ("HoldsOdd", [odd, holds])):
+            mk("new", ["new", "-type=" + t] + flags, decls, unc=[t])
+    mk("new", ["new", "-file=a.go", "-sep"], [inner, user, odd, holds], unc=["Inner", "User", "Odd", "HoldsOdd"])
+    dodd = [_file("d.go", [_struct("Odd", [F.Field(["_"], T("int")), F.Field(["X_"], T("int")), F.Field(["\u00dcn\u00ef"], T("string"))]),
+                           _struct("HoldsOdd", [F.Field(["Z"], T("int")), F.Field(["_"], T("int"))]),
+                           _struct("User", [F.Field(["Name"], T("string")), F.Field(["_"], ("arrn", ("func",)))]),
+                           _struct("Cnt", [F.Field(["ID"], T("int"))])], pkg="dest", imports=())]
+    for flags in ([], ["-i"], ["-way=toonly"]):
+        mk("map", ["map", "-path=../dest", "-type=Odd"] + flags, [odd], dodd, unc=["Odd"])
+        mk("map", ["map", "-path=../dest", "-type=HoldsOdd"] + flags, [odd, holds], dodd, unc=["HoldsOdd"])
+        mk("map", ["map", "-path=../dest", "-type=User"] + flags, [inner, user], dodd, unc=["User"])
+        mk("map", ["map", "-path=../dest", "-type=Cnt"] + flags, [cnt], dodd, unc=["Cnt"])
+    return out
+
+
+# ------------------------------------------------- -raw x several outputs x a directive that only breaks the raw text
+
+def raw_cases():
+    """-raw skips gofmt, so text that does not parse is written as it is: with several outputs every file must still be
+    written (exit 0) or none (a diagnostic before the first write)"""
+    T = F.tid
+    out = []
+    for where in ("first", "last", "both"):
+        bad = [F.Field(["id"], T("int"), doc="//shoot: def=)("), F.Field(["Type"], T("string"))]
+        good = [F.Field(["id"], T("int")), F.Field(["name"], T("string"))]
+        alpha = _struct("Alpha", bad if where in ("first", "both") else good)
+        zulu = _struct("Zulu", bad if where in ("last", "both") else list(good))
+        mid = _struct("Mike", [F.Field(["n"], T("int"))])
+        for raw in ("-raw", "-r"):
+            for sel in (["-type=Alpha,Zulu"], ["-type=Zulu,Mike,Alpha"], ["-file=b.go", "-sep"], ["-type=*", "-separate"]):
+                for extra in ([], ["-opt"], ["-json", "-getset"]):
+                    if (raw == "-r") != (extra == ["-opt"]):          # halve the product
+                        continue
+                    c = _case("new", ["new", raw] + extra + sel, [_file("b.go", [alpha, mid, zulu])])
+                    c.labels = ["raw:" + where]
+                    out.append(c)
+        # all-in-one: MergeSources parses the raw text (oracle i_merge_ok)
+        c = _case("new", ["new", "-raw", "-opt", "-file=b.go"], [_file("b.go", [alpha, mid, zulu])])
+        c.uncertain, c.labels = ["Alpha", "Zulu"], ["raw:merge:" + where]
+        out.append(c)
+    fs, _ = _rest_pkg()
+    fs[0].decls.append(("type", [F.TSpec("Other", ("iface", [F.Embed("rest", "shoot.RestClient[Other]"),
+                                                              F.Method("Ping", ("req", "Get", '"/p"'), [F.Param(["ctx"], F.tsel("context", "Context"))],
+                                                                       [F.Param([], F.tstar(F.tsel("http", "Response"))), F.Param([], T("error"))])]))]))
+    c = _case("rest", ["rest", "-raw", "-type=Client,Other"], fs)
+    c.labels = ["raw:rest"]
+    out.append(c)
+    c = _case("enum", ["enum", "-r", "-type=Color,Shade", "-json"],
+              _enum_pkg([("type", [F.TSpec("Shade", ("other", T("uint8")))]), ("const", [F.VSpec(["ShadeA"], T("Shade"), "1")])]))
+    c.labels = ["raw:enum"]
+    out.append(c)
+    return out
+
+
+# ------------------------------------------------- hostile values of every string flag
+
+GO_KEYWORDS = {"break", "case", "chan", "const", "continue", "default", "defer", "else", "fallthrough", "for", "func", "go", "goto",
+               "if", "import", "interface", "map", "package", "range", "return", "select", "struct", "switch", "type", "var"}
+HOSTILE = ["m(", "*", "[x", "a)", "+", "", " ", "a b", "a/b", "../x", "\u00fc", "\\", '"', "$(x)", "%s", "{", "?", ".", "-", "--",
+           "-x", "1x", "type", "a,b", ",", "^$", "(?i)", "\\d+", "a|b", "x{2,1}", "'", "`", "\t"]
+FILE_EXTRA = [".go", "nope.go", "a b.go", "sub/a.go", "A.GO", "*.go", "[a].go"]
+STRING_FLAGS = {"new": ["type", "file", "ver", "version", "tagcase"], "enum": ["type", "file", "ver", "version"],
+                "rest": ["type", "file", "ver", "version"], "map": ["type", "file", "ver", "version", "path", "alias", "to", "way"]}
+
+
+def sweep_base(sub):
+    if sub == "new":
+        return ["new", "-type=Order"], _new_pkg(), None, "Order"
+    if sub == "enum":
+        return ["enum", "-type=Color"], _enum_pkg([]), None, "Color"
+    if sub == "rest":
+        return ["rest", "-type=Client"], _rest_pkg()[0], None, "Client"
+    return list(MAP_ARGS), _map_src(), DEST_T, "T"
+
+
+def flag_sweep(rng, full):
+    """every string flag of every subcommand x hostile values (regexp metacharacters, empty, blank, spaces, slashes, quotes,
+    non-ASCII, option-like).  full: the whole product; otherwise all of it for the flags whose value reaches the
+    analyses (-alias, -path, -to, -type, -file) on the cheapest subcommand that has them, and a sample of the rest."""
+    cases = []
+    for sub, flags in STRING_FLAGS.items():
+        for fl in flags:
+            vals = HOSTILE + (FILE_EXTRA if fl == "file" else []) + (["a\nb"] if fl in ("ver", "version") else [])
+            for k, v in enumerate(vals):
+                args, files, dest, tname = sweep_base(sub)
+                if fl in ("type", "file"):
+                    args = [a for a in args if not a.startswith("-type=")]
+                tok = ["-%s=%s" % (fl, v)] if (k % 3) else ["-" + fl, v]
+                args = args[:1] + tok + args[1:] if (k % 2) else args + tok
+                c = _case(sub, args, files, dest)
+                c.labels = ["sweep:%s:-%s" % (sub, fl)]
+                ident = re.match(r"^[A-Za-z_]\w*$", v) is not None and v not in GO_KEYWORDS
+                if fl == "alias" and v != "" and not ident:
+                    c.uncertain = [tname]
+                if fl in ("ver", "version") and "\n" in v:
+                    c.uncertain = [tname]
+                if fl == "type" and "" in v.split(",") and v != "":
+                    c.uncertain = [""]
+                c.sweep_key = (sub, fl)
+                cases.append(c)
+    if full:
+        return cases
+    core = {("map", "alias"), ("map", "path"), ("map", "to"), ("map", "way"), ("new", "tagcase"), ("new", "type"), ("new", "file"),
+            ("new", "ver")}
+    keep = [c for c in cases if c.sweep_key in core]
+    rest = [c for c in cases if c.sweep_key not in core]
+    return keep + rng.sample(rest, 48)
 
 
 # ------------------------------------------------- deterministic coverage suite
